@@ -878,7 +878,7 @@ def run(ctx):
         cases.append(gen_ultrawide(rng, 10))
     # scatter stream: small random point sets on coarse 1-D / 2-D integer lattices, every k, find_neighbors +
     # is_knn_b only (the geometry where a too small pruning radius of the cover tree shows, about 1 case in 8000)
-    for _ in range(1200 if quick else 40000):
+    for _ in range(1200 if quick else 30000):
         n = rng.randint(4, 9)
         r = rng.choice([8, 12, 20, 40])
         if rng.random() < 0.5:
